@@ -122,14 +122,15 @@ def Builder.add (b : Builder) (rec : DocRec) (redetect : String) : Option Builde
   | none => none                       -- no repository: cannot happen after setRepository
   | some (r, ds) =>
     let lang := if rec.lang = "" then redetect else rec.lang
-    -- `addSymbols` dereferences every metadata pointer: a section without metadata (`symbols.data` = nil) panics
-    if rec.syms.any (·.isNone) then none else
+    -- `addDocument`: if the input shard has no metadata for one of the sections (`symbols.data` = nil) the document is
+    -- handed over with `SymbolsMetaData = nil`: the sections are kept, the document contributes no metadata
+    let syms := if rec.syms.any (·.isNone) then [] else rec.syms
     if !secsOk (contentLen rec.content) rec.secs then none else
     match indexOf? rec.subPath r.subPaths, encodeMask r.branches rec.branches with
     | some sub, some mask =>
       let (langs', code) := langCode b.langs lang
       let d : Doc := { repo := b.groups.length - 1, name := rec.name, content := rec.content, mask := mask, sub := sub,
-                       lang := code, cat := rec.cat, secs := rec.secs, syms := rec.syms, redetect := redetect }
+                       lang := code, cat := rec.cat, secs := rec.secs, syms := syms, redetect := redetect }
       some { groups := b.groups.dropLast ++ [(r, ds ++ [d])], langs := langs' }
     | _, _ => none
 
@@ -188,12 +189,35 @@ def mergeLoop : List Shard → Builder → Option Builder
 def Builder.flatten (b : Builder) : Shard :=
   { repos := b.groups.map (·.1), docs := b.groups.flatMap (·.2), langs := b.langs }
 
+/-! ### symbol metadata of a written shard
+
+The writer stores one global metadata table (the metadata every document contributed, in order) and a reader looks the
+metadata of section `i` of a document up at `(number of sections of all earlier documents) + i`.  When every document
+contributed one entry per section the look-up returns what the document contributed; otherwise the table is shorter
+than the section table and the look-ups are shifted (`nil` beyond the end). -/
+
+def metaTable (docs : List Doc) : List Sym := docs.flatMap fun d => d.syms.filterMap id
+
+def realignDocs (table : List Sym) : List Doc → Nat → List Doc
+  | [], _ => []
+  | d :: ds, off =>
+    { d with syms := (List.range d.secs.length).map fun i => table[off + i]? } ::
+      realignDocs table ds (off + d.secs.length)
+
+/-- every document has exactly one metadata entry per section -/
+def aligned (sh : Shard) : Bool :=
+  sh.docs.all fun d => d.syms.length == d.secs.length && d.syms.all (·.isSome)
+
+/-- the shard as a reader sees it -/
+def realign (sh : Shard) : Shard :=
+  if aligned sh then sh else { sh with docs := realignDocs (metaTable sh.docs) sh.docs 0 }
+
 /-- `index.merge(ds...)`: `none` = error -/
 def merge (shards : List Shard) : Option Shard :=
   if shards.isEmpty then none else
   -- an input without repositories cannot be loaded (ErrEmptyShard) / `repoMetaData[0]` would panic
   if shards.any (·.repos.isEmpty) then none else
-  (mergeLoop (sortByPrio shards) ⟨[], []⟩).map Builder.flatten
+  (mergeLoop (sortByPrio shards) ⟨[], []⟩).map fun b => realign b.flatten
 
 /-- `explode`: one fresh builder per repository run; each writes its own shard.
     `cur`: the builder of the repository being copied, `done`: shards already written (in order). -/
@@ -221,6 +245,6 @@ def explodeLoop (sh : Shard) : List Doc → Option Nat → Option Builder → Li
           | none => none
           | some b' => explodeLoop sh ds (some d.repo) (some b') done'
 
-def explode (sh : Shard) : Option (List Shard) := explodeLoop sh sh.docs none none []
+def explode (sh : Shard) : Option (List Shard) := (explodeLoop sh sh.docs none none []).map (List.map realign)
 
 end ZoektModel.C16
